@@ -45,7 +45,7 @@ def write_raises(ip, W, old, extra_when=None):
     ]
 
 
-@contract('lomond.session.WebsocketSession.write', serves=['C03', 'C08', 'C09', 'C11', 'C12'])
+@contract('lomond.session.WebsocketSession.write', serves=['C03', 'C08', 'C09', 'C11', 'C12', 'C14'])
 class Write(Contract):
     """under the session lock: either refuses (WebSocketError subclass, nothing written) or hands
     exactly `data`, once, to sendall"""
@@ -627,7 +627,7 @@ class SendCloseInternal(_CloseBase):
         return [('returns-bool', BoolVal(False))]
 
 
-@contract('lomond.websocket.WebSocket.close', serves=['C03', 'C08', 'C12', 'C09', 'C07', 'C15'])
+@contract('lomond.websocket.WebSocket.close', serves=['C03', 'C08', 'C12', 'C09', 'C07', 'C15', 'C14'])
 class Close(_CloseBase):
     """from C08/C03: open -> exactly one Close frame (code, reason) - or nothing if the transport
     refused it - then closing is set and sent_close_time recorded; already closing/closed -> nothing
